@@ -5,7 +5,7 @@ from fractions import Fraction
 import numpy as np
 import torch
 
-from harness import coqio, nets, compiled
+from harness import coqio, nets, compiled, protocols
 from harness.common import Check
 from translate import ops as t_ops
 
@@ -144,6 +144,9 @@ def run(ck: Check):
             if [gc[c][i] for c in range(4)] != [int(v) for v in exp]:
                 ck.disagree("compiled Walsh conv kernel differs from the sign pattern", case, expected=exp,
                             observed=[gc[c][i] for c in range(4)], signature={"layer": "conv", "what": "compiled"})
+    # ---- parameter-update protocols (reported id / eval / compiled follow the CURRENT coefficients)
+    protocols.dense_protocol(ck, "walsh", "")
+    protocols.conv_protocol(ck, "walsh", "")
     # ---- model in the kernel
     for start in range(0, n, 135):
         sub = vs[start:start + 135]
